@@ -593,6 +593,87 @@ theorem parseDefList_rel {pm : ParseMethod} (hpm : PMRel R pm) (mt : RxMatch) (s
   rintro ⟨pos, ch2, st2⟩ h2
   exact Sat.pure (hR.trans h1 h2)
 
+/-! directives (`Mistune.Model.Directives`): `env` changes only through the children parsed by `parse_tokens` -/
+
+theorem parseTokens_rel {pm : ParseMethod} (hpm : PMRel R pm) (syn : DirSyntax) (text : Str) (st : BlockState) :
+    Sat (fun res => R st.env res.2) (parseTokens cfg pm syn text st) := by
+  unfold parseTokens
+  exact Sat.bind (parse_rel' hR hpm _ _) (fun child hc => Sat.pure hc)
+
+theorem figureContent_rel {pm : ParseMethod} (hpm : PMRel R pm) (d : DirMatch) (st : BlockState) :
+    Sat (fun res => R st.env res.2) (figureContent cfg pm d st) := by
+  unfold figureContent
+  dsimp only
+  split
+  · exact Sat.pure (hR.refl _)
+  · refine Sat.bind (parseTokens_rel hR hpm _ _ _) ?_
+    rintro ⟨tokens, env⟩ h1
+    dsimp only at h1 ⊢
+    split
+    · exact Sat.pure h1
+    · refine Sat.bind (Sat.true _) (fun a _ => ?_)
+      split <;> exact Sat.pure h1
+
+theorem dirTokens_rel {pm : ParseMethod} (hpm : PMRel R pm) (d : DirMatch) (st : BlockState) :
+    Sat (fun res => R st.env res.2) (dirTokens cfg pm d st) := by
+  unfold dirTokens
+  split
+  · unfold admonitionParse
+    refine Sat.bind (parseTokens_rel hR hpm _ _ _) ?_
+    rintro ⟨toks, env⟩ h1
+    exact Sat.pure h1
+  · exact Sat.ok (hR.refl _)
+  · unfold figureParse
+    refine Sat.bind (figureContent_rel hR hpm _ _) ?_
+    rintro ⟨content, env⟩ h1
+    exact Sat.pure h1
+  · unfold includeParse
+    split
+    · split
+      · exact Sat.err
+      · exact Sat.ok (hR.refl _)
+    · exact Sat.ok (hR.refl _)
+  · unfold tocParse
+    dsimp only
+    split <;> exact Sat.ok (hR.refl _)
+  · exact Sat.err
+  · exact Sat.ok (hR.refl _)
+
+theorem dirParseMethod_rel {pm : ParseMethod} (hpm : PMRel R pm) (d : DirMatch) (st : BlockState) :
+    Sat (fun st' => R st.env st'.env) (dirParseMethod cfg pm d st) := by
+  unfold dirParseMethod
+  refine Sat.bind (dirTokens_rel hR hpm d st) ?_
+  rintro ⟨toks, env⟩ h1
+  exact Sat.pure h1
+
+theorem parseRstDirective_rel {pm : ParseMethod} (hpm : PMRel R pm) (mt : RxMatch) (st : BlockState) :
+    Sat (fun res => R st.env res.2.env) (parseRstDirective cfg pm mt st) := by
+  unfold parseRstDirective
+  split
+  · exact Sat.ok (hR.refl _)
+  · exact Sat.bind (dirParseMethod_rel hR hpm _ st) (fun st' h1 => Sat.pure h1)
+
+theorem processDirective_rel {pm : ParseMethod} (hpm : PMRel R pm) (marker : Str) (start : Nat) (st : BlockState) :
+    Sat (fun res => R st.env res.2.env) (processDirective cfg pm marker start st) := by
+  unfold processDirective
+  cases marker with
+  | nil => exact Sat.err
+  | cons c mrest =>
+    simp only [pure_bind]
+    split
+    · exact Sat.pure (hR.refl _)
+    · exact Sat.bind (dirParseMethod_rel hR hpm _ st) (fun st' h1 => Sat.pure h1)
+
+theorem parseFencedCodeDir_rel {pm : ParseMethod} (hpm : PMRel R pm) (mt : RxMatch) (st : BlockState) :
+    Sat (fun res => R st.env res.2.env) (parseFencedCodeDir cfg pm mt st) := by
+  unfold parseFencedCodeDir
+  dsimp only
+  split
+  · exact Sat.relOfEnv hR (parseFencedCode_env _ _ _)
+  · split
+    · exact Sat.relOfEnv hR (parseFencedCode_env _ _ _)
+    · exact processDirective_rel hR hpm _ _ _
+
 end rel
 
 /-! ### the dispatcher and the whole block pass -/
@@ -610,7 +691,9 @@ theorem parseMethod_rel (cfg : MdCfg) (R : Json → Json → Prop) (hR : EnvRel 
     · exact Sat.relOfEnv hR (parseBlankLine_env _ _)
     · exact Sat.relOfEnv hR (parseAtxHeading_env _ _ _)
     · exact parseSetexHeading_rel hR ih _ _
-    · exact Sat.relOfEnv hR (parseFencedCode_env _ _ _)
+    · split
+      · exact parseFencedCodeDir_rel hR ih _ _
+      · exact Sat.relOfEnv hR (parseFencedCode_env _ _ _)
     · exact Sat.relOfEnv hR (parseIndentCode_env _ _ _)
     · exact Sat.relOfEnv hR (parseThematicBreak_env _ _)
     · exact fun a ha => hR.refLink _ _ _ _ ha
@@ -640,6 +723,12 @@ theorem parseMethod_rel (cfg : MdCfg) (R : Json → Json → Prop) (hR : EnvRel 
       · exact Sat.err
     · split
       · exact Sat.relOfEnv hR (parseParagraph_env _ _)
+      · exact Sat.err
+    · split
+      · exact parseRstDirective_rel hR ih _ _
+      · exact Sat.err
+    · split
+      · exact processDirective_rel hR ih _ _ _
       · exact Sat.err
     · exact Sat.err
 
